@@ -41,14 +41,35 @@ Section Proofs.
      the total image [legacy_map] of the versioned response *)
   Theorem legacy_equiv : forall v offer nat_header,
     is_legacy offer = true ->
+    N.of_nat (List.length (enc_req offer nat_header)) <= READ_LIMIT_N ->
     client_offers enc_req dec_resp ipc_client v (ReadOk offer) nat_header =
     match client_offers enc_req dec_resp ipc_client v (versioned_twin enc_req offer nat_header) nat_header with
     | HResp 200 response => legacy_map dec_resp v response
     | other => other
     end.
   Proof.
-    intros v offer h Hl. unfold versioned_twin. cbn [client_offers]. rewrite Hl, enc_not_legacy.
+    intros v offer h Hl Hfit. unfold versioned_twin, read_body.
+    replace (READ_LIMIT_N <? _) with false by (symmetry; apply N.ltb_ge; exact Hfit).
+    cbn [client_offers]. rewrite Hl, enc_not_legacy.
     destruct (ipc_client (enc_req offer h)); reflexivity.
+  Qed.
+
+  (* ... and only within it: the shim does not put the encoded body through the read limit. A legacy body that was read
+     (so: within the limit) whose versioned encoding is beyond the limit is answered per IPC, while that encoding
+     POSTed directly is a 400. (No use of enc_not_legacy.) *)
+  Theorem legacy_diverges_over_limit : forall v offer nat_header,
+    is_legacy offer = true ->
+    READ_LIMIT_N < N.of_nat (List.length (enc_req offer nat_header)) ->
+    client_offers enc_req dec_resp ipc_client v (ReadOk offer) nat_header =
+      match ipc_client (enc_req offer nat_header) with
+      | IpcOk response => legacy_map dec_resp v response
+      | _ => HResp 500 []
+      end /\
+    client_offers enc_req dec_resp ipc_client v (versioned_twin enc_req offer nat_header) nat_header = HResp 400 [].
+  Proof.
+    intros v offer h Hl Hbig. split.
+    - cbn [client_offers]. rewrite Hl. reflexivity.
+    - unfold versioned_twin, read_body. apply N.ltb_lt in Hbig. rewrite Hbig. reflexivity.
   Qed.
 
   Theorem legacy_map_cases : forall response,
@@ -394,13 +415,13 @@ Section ServeProofs.
 
   (* ---- a legacy request and its versioned twin: same IPC call, same state afterwards, response = image under legacy_map ---- *)
   Hypothesis enc_not_legacy : forall o n, is_legacy (enc_req o n) = false.
-  Hypothesis enc_fits : forall o n, N.of_nat (List.length (enc_req o n)) <= READ_LIMIT_N.
 
   Theorem legacy_twin_same_state : forall v s q q' offer,
     route_of (q_path q) = RClient -> route_of (q_path q') = RClient ->
     beq (q_method q) OPTIONS = false -> beq (q_method q') OPTIONS = false ->
     read_body (q_sent q) = ReadOk offer -> is_legacy offer = true ->
     q_sent q' = enc_req offer (header_get (q_hdrs q) NAT_HEADER) ->
+    N.of_nat (List.length (enc_req offer (header_get (q_hdrs q) NAT_HEADER))) <= READ_LIMIT_N ->
     snd (serve_ v s q) = snd (serve_ v s q') /\
     hresp_of (fst (handle_ v RClient s q)) =
       match hresp_of (fst (handle_ v RClient s q')) with
@@ -408,8 +429,8 @@ Section ServeProofs.
       | other => other
       end.
   Proof.
-    intros v s q q' offer Hr Hr' Hm Hm' Hb Hl Hs.
-    assert (Hb' : read_body (q_sent q') = ReadOk (q_sent q')) by (apply within_limit_read; rewrite Hs; apply enc_fits).
+    intros v s q q' offer Hr Hr' Hm Hm' Hb Hl Hs Hfit.
+    assert (Hb' : read_body (q_sent q') = ReadOk (q_sent q')) by (apply within_limit_read; rewrite Hs; exact Hfit).
     split.
     - unfold serve_req. rewrite Hr, Hr'. cbn [handle]. unfold cors_wrap. rewrite Hm, Hm'. unfold client_offers_w. rewrite Hb, Hb'.
       destruct (first_byte_legacy offer) as [b0 [F0 L0]]. destruct (first_byte_legacy (q_sent q')) as [b1 [F1 L1]].
@@ -417,6 +438,38 @@ Section ServeProofs.
       destruct (ipc_client s _) as [[response| | |] s']; reflexivity.
     - cbn [handle]. unfold cors_wrap. rewrite Hm, Hm'. rewrite !client_offers_refines. rewrite Hb, Hb', Hs.
       cbn [client_offers]. rewrite Hl, enc_not_legacy. destruct (fst (ipc_client s _)); reflexivity.
+  Qed.
+
+  (* the divergence of the shim at the size limit, at the level of whole requests: the legacy request (body within the
+     limit) makes the IPC call on the encoded body - whatever its size - leaves the state that call leaves and answers
+     with the image of its outcome; the encoded body POSTed directly is beyond the limit: 400, no IPC call, state
+     untouched *)
+  Theorem legacy_twin_over_limit : forall v s q q' offer,
+    route_of (q_path q) = RClient -> route_of (q_path q') = RClient ->
+    beq (q_method q) OPTIONS = false -> beq (q_method q') OPTIONS = false ->
+    read_body (q_sent q) = ReadOk offer -> is_legacy offer = true ->
+    q_sent q' = enc_req offer (header_get (q_hdrs q) NAT_HEADER) ->
+    READ_LIMIT_N < N.of_nat (List.length (enc_req offer (header_get (q_hdrs q) NAT_HEADER))) ->
+    let call := ipc_client s (enc_req offer (header_get (q_hdrs q) NAT_HEADER)) in
+    snd (serve_ v s q) = snd call /\
+    hresp_of (fst (handle_ v RClient s q)) =
+      match fst call with
+      | IpcOk response => legacy_map dec_resp v response
+      | _ => HResp 500 []
+      end /\
+    handle_ v RClient s q' = (Ret {| w_code := Some 400; w_body := []; w_cors := true |}, s) /\
+    snd (serve_ v s q') = s.
+  Proof.
+    intros v s q q' offer Hr Hr' Hm Hm' Hb Hl Hs Hbig call.
+    assert (H400 : handle_ v RClient s q' = (Ret {| w_code := Some 400; w_body := []; w_cors := true |}, s)).
+    { apply oversize_is_400; [right; left; reflexivity | exact Hm' | rewrite Hs; exact Hbig]. }
+    split; [|split; [|split; [exact H400|]]].
+    - unfold serve_req. rewrite Hr. cbn [handle]. unfold cors_wrap. rewrite Hm. unfold client_offers_w. rewrite Hb.
+      destruct (first_byte_legacy offer) as [b0 [F0 L0]]. rewrite F0, L0, Hl. subst call.
+      destruct (ipc_client s _) as [[response| | |] s']; reflexivity.
+    - cbn [handle]. unfold cors_wrap. rewrite Hm. rewrite client_offers_refines. rewrite Hb.
+      cbn [client_offers]. rewrite Hl. subst call. destruct (fst (ipc_client s _)); reflexivity.
+    - unfold serve_req. rewrite Hr', H400. reflexivity.
   Qed.
 End ServeProofs.
 
